@@ -6,13 +6,29 @@ LEVEL = "proof"
 SEEKS = ["rawseek", "pcmseek", "pcmseekpage", "timeseek", "timeseekpage"]
 
 
+SETUPS = []          # generated set-ups (3, 5, 6, 7 modes preferred, two block sizes) for hand-muxed links; filled by run()
+
+
 def gen_case(rng, i, tier):
     links = V.gen_links(rng)
     lens = [int(l.split(" ")[4]) for l in links]
     rates = [int(l.split(" ")[2]) for l in links]
+    ops = ["case %d" % i] + V.with_mux(rng, links) + V.gen_splits(rng, links)
+    if SETUPS and rng.random() < 0.3:
+        # one more link, hand-muxed over a generated set-up (any number of modes, any mode order): positions are computed from the
+        # packets' mode numbers without decoding them
+        rate = rng.choice([8000, 44100])
+        o, n, inf = V.raw_link_from(rng, rng.choice(SETUPS), 7000 + i % 900, rate, rng.randint(8, 120), trim=rng.choice([None, None, 3, 50]), flush_p=rng.choice([0.05, 0.2]))
+        if rng.random() < 0.5:
+            ops += o
+            lens.append(n)
+            rates.append(rate)
+        else:
+            ops[1:1] = o
+            lens.insert(0, n)
+            rates.insert(0, rate)
     total = sum(lens)
     dur_ms = int(sum(1000.0 * n / r for n, r in zip(lens, rates)))
-    ops = ["case %d" % i] + V.with_mux(rng, links) + V.gen_splits(rng, links)
     if rng.random() < 0.15:
         # junk between the links must not matter
         ops.insert(rng.randrange(2, len(ops) + 1), "garbage %d %d" % (rng.choice([1, 50, 700]), rng.randrange(1, 9999)))
@@ -98,6 +114,9 @@ def run(chk):
     theorems = vlib.theorem_names("C07")
     broken = chk.proof_side(theorems)
     n = 60 if chk.tier == "quick" else 1200
+    cand = V.valid_setups(chk.rng, 40 if chk.tier == "quick" else 120)
+    cand.sort(key=lambda su: -((len(su["flags"]) in (3, 5, 6, 7)) + (0 < sum(su["flags"]) < len(su["flags"])) + (su["b0"] != su["b1"])))
+    SETUPS[:] = cand[:10 if chk.tier == "quick" else 40]
     cases = common.load_corpus("C07", 100000) + [gen_case(chk.rng, i, chk.tier) for i in range(n)]
     res = V.run_vf(cases)
     ofail = []
